@@ -694,7 +694,7 @@ func (ex *Exec) ensureInit(p *ssa.Package) {
 		ex.rawInit = true
 		_, pan := ex.callFunction(initFn, nil, nil, nil)
 		if pan != nil {
-			panic(engineErr("init of %s panicked: %s", path, pan.msg))
+			panic(engineErr("init of %s panicked: %s at %s", path, pan.msg, pan.where))
 		}
 	}()
 }
@@ -843,6 +843,7 @@ func (ex *Exec) run2(fr *frame) (Value, *goPanic) {
 		var done bool
 		var ret Value
 		merged := false
+		var lastInstr ssa.Instruction
 		// phis first (parallel assignment)
 		i := 0
 		if ex.skipPhis {
@@ -876,6 +877,7 @@ func (ex *Exec) run2(fr *frame) (Value, *goPanic) {
 		}
 		for ; i < len(block.Instrs); i++ {
 			in := block.Instrs[i]
+			lastInstr = in
 			ex.steps++
 			if ex.steps > ex.H.MaxSteps {
 				panic(engineErr("step budget exceeded (%d) in %s", ex.H.MaxSteps, fr.fn))
@@ -934,6 +936,11 @@ func (ex *Exec) run2(fr *frame) (Value, *goPanic) {
 		if pan != nil {
 			if pan.where == "" {
 				pan.where = fr.fn.String()
+				if lastInstr != nil && lastInstr.Pos().IsValid() {
+					pan.where += " (" + ex.pos2(lastInstr.Pos()) + ")"
+				} else if lastInstr != nil {
+					pan.where += " (" + lastInstr.String() + ")"
+				}
 			}
 			// unwinding: run deferred calls; a recover() clears the panic
 			fr.panicV = pan
